@@ -13,10 +13,12 @@ import (
 	"encoding/hex"
 	"encoding/json"
 	"encoding/xml"
+	"errors"
 	"fmt"
 	"log/slog"
 	"math/rand"
 	"net/http"
+	"net/http/httptest"
 	"strconv"
 	"strings"
 	"text/template"
@@ -24,6 +26,7 @@ import (
 
 	"go.uber.org/zap"
 	"go.uber.org/zap/zapcore"
+	"google.golang.org/protobuf/types/known/emptypb"
 	yaml2 "gopkg.in/yaml.v2"
 	yaml3 "gopkg.in/yaml.v3"
 
@@ -32,6 +35,7 @@ import (
 	"go.opentelemetry.io/collector/config/configgrpc"
 	"go.opentelemetry.io/collector/config/confighttp"
 	"go.opentelemetry.io/collector/config/configopaque"
+	"go.opentelemetry.io/collector/config/configtls"
 	"go.opentelemetry.io/collector/confmap"
 	"go.opentelemetry.io/collector/confmap/xconfmap"
 	"go.opentelemetry.io/collector/verifharness/lib/driver"
@@ -174,6 +178,8 @@ func fmtGrid(s configopaque.String, in inner, kd keyed, emit func(rendering)) {
 		{"val", s}, {"ptr", &p}, {"ptrptr", &pp}, {"struct", in}, {"structptr", &in}, {"slice", in.L}, {"mapval", in.M}, {"arr", in.A},
 		{"mapkey", kd.K}, {"iface", in.I}, {"nested", &in.N}, {"struct-with-nested-ptr", withPtr{"n", &in.N}}, {"ptr-to-struct-with-nested-ptr", &withPtr{"n", &in.N}}, {"anyslice", []any{s, &p}}, {"structkeyed", kd},
 		{"http.Headers", confighttp.ClientConfig{Headers: in.M}.Headers}, {"grpc.Headers", configgrpc.ClientConfig{Headers: in.M}.Headers},
+		// pointers to structs held by slices and maps (a list of sub-configurations, a map of named ones)
+		{"anyslice-of-structptr", []any{&in}}, {"slice-of-structptr", []*nested{&in.N}}, {"map-of-structptr", map[string]*nested{"k": &in.N}},
 	}
 	for _, v := range verbs {
 		for _, f := range flagSets {
@@ -351,6 +357,124 @@ func encoders(s configopaque.String, in inner, kd keyed, emit func(rendering)) {
 	}
 }
 
+// renderAll renders one value through the paths a configuration struct takes in practice (fmt in log lines and
+// error messages, the encoders, confmap.Marshal, zap, slog).
+func renderAll(container string, v any, emit func(rendering)) {
+	for _, f := range []string{"%v", "%+v", "%#v", "%s", "%q", "%d", "%x"} {
+		emit(rendering{"fmt", "Sprintf " + f, container, f[len(f)-1:], fmt.Sprintf(f, v), false})
+	}
+	emit(rendering{"fmt", "Sprint", container, "v", fmt.Sprint(v), false})
+	emit(rendering{"fmt", "Sprint in slice", container, "v", fmt.Sprint([]any{v}, map[string]any{"c": v}), false})
+	emit(rendering{"fmt", "Errorf %v", container, "v", fmt.Errorf("cannot use %v: %w", v, errors.New("x")).Error(), false})
+	if b, err := json.Marshal(v); err == nil {
+		emit(rendering{"json", "Marshal", container, "", string(b), false})
+	}
+	if b, err := yaml3.Marshal(v); err == nil {
+		emit(rendering{"yaml.v3", "Marshal", container, "", string(b), false})
+	}
+	cm := confmap.New()
+	if err := cm.Marshal(v); err == nil {
+		sm := cm.ToStringMap()
+		emit(rendering{"confmap", "Marshal+ToStringMap %v", container, "", fmt.Sprint(sm), false})
+		if b, err := json.Marshal(sm); err == nil {
+			emit(rendering{"confmap", "Marshal+ToStringMap json", container, "", string(b), false})
+		}
+	}
+	var zb bytes.Buffer
+	lg := zap.New(zapcore.NewCore(zapcore.NewJSONEncoder(zap.NewProductionEncoderConfig()), zapcore.AddSync(&zb), zap.DebugLevel))
+	lg.Info("m", zap.Any("cfg", v), zap.Reflect("r", v))
+	lg.Sugar().Infof("cfg %v %+v", v, v)
+	emit(rendering{"zap", "json fields", container, "", zb.String(), false})
+	var sb bytes.Buffer
+	slog.New(slog.NewTextHandler(&sb, nil)).Info("m", "cfg", v)
+	slog.New(slog.NewJSONHandler(&sb, nil)).Info("m", "cfg", v)
+	emit(rendering{"slog", "handlers", container, "", sb.String(), false})
+}
+
+// usedConfigs: configuration structs are rendered AFTER they were put to use (client / server built from
+// them, one request sent): whatever the build step derives from the opaque values and keeps (caches,
+// flattened header lists) must not turn up in a later rendering of the configuration.
+func usedConfigs(in inner, emit func(rendering)) {
+	ctx := context.Background()
+	host := componenttest.NewNopHost()
+	ts := componenttest.NewNopTelemetrySettings()
+	errText := func(err error) string {
+		if err == nil {
+			return ""
+		}
+		return err.Error() + " | " + fmt.Sprintf("%v %+v %q", err, err, err)
+	}
+	gc := &configgrpc.ClientConfig{Endpoint: "127.0.0.1:1", Headers: in.M, TLSSetting: configtls.ClientConfig{Insecure: true}}
+	conn, err := gc.ToClientConn(ctx, host, ts)
+	emit(rendering{"error", "configgrpc.ToClientConn", "grpc.ClientConfig", "", errText(err), false})
+	if conn != nil {
+		// one call, so that per-RPC header handling has run; the dial fails (nobody listens), which is fine
+		cctx, cancel := context.WithTimeout(ctx, 50*time.Millisecond)
+		ierr := conn.Invoke(cctx, "/verif.S/M", &emptypb.Empty{}, &emptypb.Empty{})
+		cancel()
+		emit(rendering{"error", "grpc Invoke with configured headers", "grpc.ClientConfig", "", errText(ierr), false})
+		conn.Close()
+	}
+	renderAll("grpc.ClientConfig after ToClientConn", gc, emit)
+	renderAll("grpc.ClientConfig (value) after ToClientConn", *gc, emit)
+
+	hc := &confighttp.ClientConfig{Endpoint: "http://127.0.0.1:1", Headers: in.M}
+	if cl, err := hc.ToClient(ctx, host, ts); err == nil {
+		req, _ := http.NewRequest(http.MethodPost, "http://127.0.0.1:1/x", strings.NewReader("x"))
+		if resp, err := cl.Do(req); err == nil {
+			resp.Body.Close()
+		}
+		cl.CloseIdleConnections()
+	}
+	renderAll("http.ClientConfig after ToClient", hc, emit)
+	renderAll("http.ClientConfig (value) after ToClient", *hc, emit)
+
+	hs := &confighttp.ServerConfig{Endpoint: "127.0.0.1:0", ResponseHeaders: in.M}
+	if srv, err := hs.ToServer(ctx, host, ts, http.NotFoundHandler()); err == nil && srv != nil {
+		rec := httptest.NewRecorder()
+		srv.Handler.ServeHTTP(rec, httptest.NewRequest(http.MethodGet, "/x", nil))
+		_ = srv.Close()
+	} else {
+		emit(rendering{"error", "confighttp.ToServer", "http.ServerConfig", "", errText(err), false})
+	}
+	renderAll("http.ServerConfig after ToServer", hs, emit)
+}
+
+// marshalIntoSource: the round trip Conf -> Unmarshal(&cfg) -> Marshal(cfg) into THE SAME Conf (what a
+// component does that normalises its own section): afterwards the Conf must hold the redacted values only.
+func marshalIntoSource(sec string, emit func(rendering)) {
+	raw := map[string]any{"s": sec, "p": sec, "m": map[string]any{"h": sec, "k2": sec}, "l": []any{sec, sec}, "a": []any{sec, sec},
+		"n": map[string]any{"deep": map[string]any{"d": []any{sec}}, "inner": map[string]any{"x": sec}}}
+	cm := confmap.NewFromStringMap(raw)
+	var cfg inner
+	if err := cm.Unmarshal(&cfg); err != nil {
+		return
+	}
+	err := cm.Marshal(cfg)
+	if err != nil {
+		emit(rendering{"error", "Conf.Marshal into its source", "struct", "", err.Error(), false})
+		return
+	}
+	sm := cm.ToStringMap()
+	emit(rendering{"confmap", "Unmarshal+Marshal into the same Conf, ToStringMap %v", "struct", "", fmt.Sprint(sm), false})
+	if b, err := json.Marshal(sm); err == nil {
+		emit(rendering{"confmap", "Unmarshal+Marshal into the same Conf, json", "struct", "", string(b), false})
+	}
+	for _, k := range cm.AllKeys() {
+		emit(rendering{"confmap", "Unmarshal+Marshal into the same Conf, Get", "struct", "", fmt.Sprintf("%s=%v", k, cm.Get(k)), false})
+	}
+	// the same through a real configuration type
+	hraw := map[string]any{"endpoint": "http://x", "headers": map[string]any{"authorization": sec, "x-k": sec}}
+	hcm := confmap.NewFromStringMap(hraw)
+	hc := confighttp.NewDefaultClientConfig()
+	if err := hcm.Unmarshal(&hc); err == nil {
+		if err := hcm.Marshal(hc); err == nil {
+			emit(rendering{"confmap", "Unmarshal+Marshal into the same Conf, ToStringMap %v", "http.ClientConfig", "", fmt.Sprint(hcm.ToStringMap()), false})
+			emit(rendering{"confmap", "Unmarshal+Marshal into the same Conf, Sub", "http.ClientConfig", "", fmt.Sprint(hcm.Get("headers")), false})
+		}
+	}
+}
+
 // positives: the explicit conversion returns the secret; unmarshalling stores it unchanged.
 func positives(c *driver.Ctx, sec string) {
 	s := configopaque.String(sec)
@@ -464,6 +588,8 @@ func run(c *driver.Ctx) {
 		}
 		fmtGrid(s, in, kd, emit)
 		encoders(s, in, kd, emit)
+		usedConfigs(in, emit)
+		marshalIntoSource(sec, emit)
 		positives(c, sec)
 		if i == 0 {
 			c.Sample(map[string]any{"secret_class": class, "secret": sec, "renderings_per_path": paths,
@@ -512,7 +638,7 @@ func main() {
 	driver.Main(driver.Spec{
 		ID:    "C14",
 		Level: "exploration",
-		Rule: "a case is one (rendering path, exact format/function, container, secret class); the fmt verb x flag x width grid (24 verbs x 13 flag sets x 8 width/precision forms x 17 containers, plus Fprintf/Errorf/Appendf/Sprint*) is enumerated completely for every generated secret (10 secret classes incl. format directives, the marker itself, unicode, white space at the edges, control characters; the empty secret must render the marker on every string-like path); error texts of Validate()/xconfmap.Validate and of a real client request with the configured headers are rendering paths too; per secret also: string(s) returns it, confmap / encoding/json / yaml.v3 unmarshalling store it unchanged, and renderings are unaffected by a caller overwriting the bytes MarshalText/MarshalBinary returned; " +
+		Rule: "a case is one (rendering path, exact format/function, container, secret class); the fmt verb x flag x width grid (24 verbs x 13 flag sets x 8 width/precision forms x 20 containers, plus Fprintf/Errorf/Appendf/Sprint*) is enumerated completely for every generated secret (10 secret classes incl. format directives, the marker itself, unicode, white space at the edges, control characters; the empty secret must render the marker on every string-like path); error texts of Validate()/xconfmap.Validate and of a real client request with the configured headers are rendering paths too; configuration structs are rendered again AFTER a client/server was built from them and used once; Conf -> Unmarshal -> Marshal into the same Conf must leave only redacted values; per secret also: string(s) returns it, confmap / encoding/json / yaml.v3 unmarshalling store it unchanged, and renderings are unaffected by a caller overwriting the bytes MarshalText/MarshalBinary returned; " +
 			"every case is non-trivial (a secret is present in the rendered value); distinct = distinct (path, format, container, secret class)",
 		Assumptions: []string{
 			"containers are the positions a configuration can have: exported struct fields, pointers, slices, arrays, map values, map keys, interfaces; unexported fields are excluded (fmt cannot call methods on them and mapstructure cannot populate them)",
